@@ -1868,6 +1868,11 @@ namespace awkward {
         parameter_equals("__array__", "\"char\"")) {
       int64_t total_length = 0;
       for (auto contiguous_array : contiguous_arrays) {
+        if (contiguous_array.itemsize() != 1  ||  contiguous_array.ndim() != 1) {
+          throw std::invalid_argument(
+            std::string("cannot merge characters of a string with ")
+            + util::dtype_to_name(contiguous_array.dtype()) + FILENAME(__LINE__));
+        }
         total_length += contiguous_array.length();
       }
 
